@@ -241,6 +241,29 @@ func c19objects() []c19obj {
 				}},
 			}
 		}},
+		{name: "vnet socket bound to the wildcard address", setup: func() []c19op {
+			// (a socket bound to 0.0.0.0 picks its source address per datagram; dialled sockets have a remote)
+			r, _ := vnet.NewRouter(&vnet.RouterConfig{CIDR: "10.0.0.0/24", LoggerFactory: lf()})
+			n1, _ := vnet.NewNet(&vnet.NetConfig{StaticIPs: []string{"10.0.0.1"}})
+			n2, _ := vnet.NewNet(&vnet.NetConfig{StaticIPs: []string{"10.0.0.2"}})
+			_ = r.AddNet(n1)
+			_ = r.AddNet(n2)
+			_ = r.Start()
+			cw, _ := n1.ListenUDP("udp", &net.UDPAddr{IP: net.IPv4zero, Port: 5000})
+			_, _ = n2.ListenUDP("udp", &net.UDPAddr{IP: net.ParseIP("10.0.0.2"), Port: 5000})
+			to2 := &net.UDPAddr{IP: net.ParseIP("10.0.0.2"), Port: 5000}
+			lo := &net.UDPAddr{IP: net.ParseIP("127.0.0.1"), Port: 5000}
+			return []c19op{
+				{"WriteTo-a", func() { _, _ = cw.WriteTo([]byte("a"), to2) }},
+				{"WriteTo-b", func() { _, _ = cw.WriteTo([]byte("b"), to2) }},
+				{"WriteTo-loopback", func() { _, _ = cw.WriteTo([]byte("l"), lo) }},
+				{"LocalAddr+ReadFrom", func() {
+					_ = cw.LocalAddr()
+					_ = cw.SetReadDeadline(zzvsched.Now().Add(time.Millisecond))
+					_, _, _ = cw.ReadFrom(make([]byte, 8))
+				}},
+			}
+		}},
 		{name: "token bucket filter", setup: func() []c19op {
 			rec := vnet.ZZNewRecNIC()
 			f, _ := vnet.NewTokenBucketFilter(rec, vnet.TBFRate(vnet.MBit), vnet.TBFMaxBurst(2000))
@@ -387,7 +410,7 @@ func c19objects() []c19obj {
 	}
 }
 
-func c19counts() []int { return []int{6, 4, 6, 6, 9, 7, 3, 8, 4, 5, 3, 2} }
+func c19counts() []int { return []int{6, 4, 6, 6, 9, 4, 7, 3, 8, 4, 5, 3, 2} }
 
 func init() {
 	register(&Check{ID: "C19", ShardByScenario: true,
@@ -406,10 +429,10 @@ func init() {
 				}
 				for i := 0; i < n; i++ {
 					for j := i; j < n; j++ {
-						if i == j && tier == "quick" && (oi == 4 || oi == 7 || oi == 9) {
+						if i == j && tier == "quick" && (oi == 4 || oi == 8 || oi == 10) {
 							continue // same operation twice on the three largest families: thorough only
 						}
-						if oi == 5 && i == 6 && j == 6 {
+						if oi == 6 && i == 6 && j == 6 {
 							continue // TokenBucketFilter.Close twice is a caller error (close of a closed channel)
 						}
 						out = append(out, c19scenario(o, []int{i, j}, bound))
@@ -423,7 +446,7 @@ func init() {
 			}
 			return out
 		},
-		Rule: "programs: for each object (packet buffer, packet buffer with a full size-limited ring, deadline, dpipe, vnet socket + running router, NAT router under traffic, token bucket filter, delay+loss filter, UDP listener + connection, UDP listener without connections, UDP listener with batch writes, two independent networks) every unordered pair (thorough: also each operation with itself and selected triples) of its concurrent-safe operations runs in separate threads after a sequential set-up; every schedule within the deviation bound runs under the Go race detector with a scheduler hand-off invisible to it; a violation is a detector report whose two accesses are both in repository code, or a panic of the library in such a program (double close, runtime map-access abort)",
+		Rule: "programs: for each object (packet buffer, packet buffer with a full size-limited ring, deadline, dpipe, vnet socket + running router, vnet socket bound to the wildcard address, NAT router under traffic, token bucket filter, delay+loss filter, UDP listener + connection, UDP listener without connections, UDP listener with batch writes, two independent networks) every unordered pair (thorough: also each operation with itself and selected triples) of its concurrent-safe operations runs in separate threads after a sequential set-up; every schedule within the deviation bound runs under the Go race detector with a scheduler hand-off invisible to it; a violation is a detector report whose two accesses are both in repository code, or a panic of the library in such a program (double close, runtime map-access abort)",
 		Assumptions: []string{"the race detector keeps a bounded shadow history per memory word; the harnesses are short, so eviction is unlikely but possible",
 			"operations documented as construction-only (TBFQueueSizeInBytes, Bridge.SetLossChance) are not in the alphabet",
 			"happens-before edges of mutex/rwmutex/waitgroup/once/channel/timer/go are re-created for the detector by the shim (runtime.RaceAcquire/Release); the real channel, atomic and go operations are executed by the thread itself"}})
